@@ -70,7 +70,7 @@ def interval_post(pop, n, c, u, T, r, idx):
 
 class DeterministicChoice(Contract):
     target = "pyab_experiment.binning.binning:deterministic_choice"
-    props = ("C03", "C10", "C16", "C01", "C15")
+    props = ("C03", "C10", "C16", "C01", "C15", "C12")
 
     def shapes(self):
         out = []
@@ -141,15 +141,15 @@ class DeterministicChoice(Contract):
 
     def clause_props(self, name, kind):
         if name.startswith("ensures.member+interval"):
-            return ("C03", "C16", "C10")
+            return ("C03", "C16", "C10", "C12")
         if name.startswith("ensures.member+floor"):
-            return ("C03", "C16")
+            return ("C03", "C16", "C12")
         if name.startswith("ensures.") or name.startswith("raises."):
             return ("C16",)
         if name.startswith("frame.arguments"):
             return ("C16", "C01")
         if name.startswith("frame.deterministic"):
-            return ("C01", "C10")
+            return ("C01", "C10", "C12")
         if name.startswith("frame.delegates"):
             return ("C16",)
         return ("C03", "C16")
